@@ -111,6 +111,67 @@ func (p *Path) stubByName(name string, fn *ssa.Function, args []Value) (Value, b
 	case "(*bytes.Buffer).Reset":
 		p.bufs[p.bufPtr(args[0])] = mkStr("")
 		return nil, true
+	case "(*sync.Mutex).Lock", "(*sync.Mutex).Unlock", "(*sync.RWMutex).Lock", "(*sync.RWMutex).Unlock", "(*sync.RWMutex).RLock", "(*sync.RWMutex).RUnlock":
+		return nil, true
+	case "(*sync.Mutex).TryLock":
+		return tTrue, true
+	case "(*sync.Once).Do":
+		c := args[0].(Ptr).p
+		if p.onceDone == nil {
+			p.onceDone = map[*Value]bool{}
+		}
+		if !p.onceDone[c] {
+			p.onceDone[c] = true
+			p.noteWriteCell(c)
+			p.callValue(args[1], nil)
+		}
+		return nil, true
+	case "(*sync.Pool).Get":
+		c := args[0].(Ptr).p
+		if p.pools == nil {
+			p.pools = map[*Value][]Value{}
+		}
+		if l := p.pools[c]; len(l) > 0 {
+			v := l[len(l)-1]
+			p.pools[c] = l[:len(l)-1]
+			p.noteWriteCell(c)
+			return v, true
+		}
+		st := (*c).(Struct)
+		pt := fn.Signature.Recv().Type().(*types.Pointer).Elem().Underlying().(*types.Struct)
+		for i := 0; i < pt.NumFields(); i++ {
+			if pt.Field(i).Name() == "New" {
+				switch nf := st[i].(type) {
+				case FuncVal:
+					if nf.fn != nil {
+						return p.callValue(nf, nil), true
+					}
+				case *Closure:
+					return p.callValue(nf, nil), true
+				}
+			}
+		}
+		return Iface{}, true
+	case "(*sync.Pool).Put":
+		c := args[0].(Ptr).p
+		if p.pools == nil {
+			p.pools = map[*Value][]Value{}
+		}
+		p.pools[c] = append(p.pools[c], args[1])
+		p.noteWriteCell(c)
+		return nil, true
+	case "sync/atomic.AddInt64", "sync/atomic.AddInt32", "sync/atomic.AddUint64", "sync/atomic.AddUint32":
+		c := args[0].(Ptr).p
+		p.noteWriteCell(c)
+		*c = mkAdd((*c).(*Term), args[1].(*Term))
+		return *c, true
+	case "sync/atomic.LoadInt64", "sync/atomic.LoadInt32", "sync/atomic.LoadUint64", "sync/atomic.LoadUint32":
+		return *args[0].(Ptr).p, true
+	case "sync/atomic.StoreInt64", "sync/atomic.StoreInt32", "sync/atomic.StoreUint64", "sync/atomic.StoreUint32":
+		c := args[0].(Ptr).p
+		p.noteWriteCell(c)
+		*c = args[1]
+		return nil, true
 	case "fmt.Sprintf":
 		return p.sprintf(args[0].(*Term), args[1]), true
 	case "fmt.Sprint":
